@@ -19,8 +19,8 @@ PROPS = {
         "diff_is_failure": True,
         "trivial_outs": set(),
         "rule": "cases = stored witnesses (corpus/C03) + systematic sweeps (every (start, stop) in [-len-2, len+2]^2 for LRANGE/LINDEX/LSET/LTRIM on lists of length <= 3 (thorough: <= 5), LREM for every count around the number of occurrences, SUNION/SINTER/SDIFF over every 1..3-key combination of {missing, set, set, other type}) + random histories of 1..70 commands of the list/set/hash families (plus SET/DEL/EXPIRE/PERSIST/TYPE) on typed colliding key pools, with a malformed share (arity, non-bulk argument, non-integer, wrong type); each history runs against a fresh server process over TCP and ends with a dump (TYPE, LRANGE 0 -1, SMEMBERS, HGETALL, PTTL of every pool key, KEYS *, DBSIZE); one evaluation = one command whose canonical reply (errors by first word, unordered replies sorted) is compared between the server and the extracted Gallina model; SPOP/SRANDMEMBER replies are fed to the model as oracle and checked for admissibility; distinct = distinct (operation, output) pairs",
-        "explanation": "theorems: LRANGE/LTRIM window = Redis rule for all lists/start/stop outside the class lrange-stop-underflow (and exact behaviour inside it), LINDEX/LSET addressing, LREM for all counts, failure atomicity of every command, no empty collection stored + unique members/fields after every history, set algebra over all combinations of existing/missing keys, soundness of SPOP/SRANDMEMBER for every admissible oracle choice, HSET/HDEL counts and lookups; refuted: 7 classes (known_findings.json); tie: differential run of the real server against the extracted model + an independent property oracle on the server's outputs (no empty collection visible, no duplicates, random picks are members, LRANGE stop<-len empty)",
-        "trusted_base": SRV_TB + ["inputs that crash the unchanged server (LREM isize::MIN, SRANDMEMBER i64::MIN / huge negative count, HINCRBY overflow) are excluded from the random stream and replayed only as known-finding witnesses"],
+        "explanation": "theorems (all at full strength since the repairs c5f1b6a 61742d6 2b792ef 6f35e51 eab489c 84546fc): LRANGE/LTRIM window = Redis rule for ALL lists/start/stop, LINDEX/LSET addressing, LREM for all counts incl. isize::MIN, failure atomicity of every command, no empty collection stored + unique members/fields after every history (also mixed with the string family), set algebra over all combinations of existing/missing keys with every key type-checked, soundness of SPOP/SRANDMEMBER for every admissible oracle choice, HSET/HDEL counts and lookups, HINCRBY checked arithmetic, no PANIC outcome for any command/argument; tie: differential run of the real server against the extracted model + an independent property oracle on the server's outputs (no empty collection visible, no duplicates, random picks are members, LRANGE stop<-len empty)",
+        "trusted_base": SRV_TB + ["SRANDMEMBER with a huge negative count (work proportional to |count|, known finding srandmember-neg-work) is excluded from the random stream; counts down to -100 and i64::MIN are generated"],
         "assumptions": ["no key expires during a history (only long TTLs are generated): the engine functions of this family do not check expiry (DESIGN F-02b, property C02)",
                         "commands are executed one at a time by the single command thread"],
     },
